@@ -93,6 +93,15 @@ class Spec(PureLibMixin, BaseSpec):
             st.h.sdom = z3.Store(st.h.sdom, rid, z3.Store(z3.Select(st.h.sdom, rid), key, True))
             st.assume(ChanOfDeque(QOf(V.s(key))) == V.s(key))
             return vtup([V.obj(QOf(V.s(key))), V.obj(LOf(V.s(key)))])
+        k_ = z3.simplify(I.lift(key))
+        if z3.is_app(k_) and k_.decl().name() == "int" and z3.is_int_value(k_.arg(0)) and k_.arg(0).as_long() in (0, -1):
+            # q[0] / q[-1] on a channel deque: a read of the deque (G1 applies); it returns the message at that end *now* and removes
+            # nothing - a later popleft is a separate access that needs its own critical section and non-empty test
+            self.q_guard(I, v, "peek")
+            t = st.ghost.get("last_truth_test")
+            self.oblige(I, "S2/peek-only-after-a-non-empty-test-in-the-same-critical-section",
+                        z3.And(t[0] == v, z3.BoolVal(t[2] == st.ghost.get("acquired"))) if t is not None else z3.BoolVal(False))
+            return V.obj(Head(V.oid(v), z3.IntVal(st.ghost.get("time", 0) + 1)))
         return super().obj_getitem(I, v, key)
 
     def obj_setitem(self, I, v, key, value):
@@ -288,11 +297,16 @@ def factory():
     return Spec()
 
 
+_NATIVE = {}
+
+
 def replay(ob):
     payload = {"obligation": ob.name, "solver": ob.backend, "model": report.model_summary(ob), "meta": getattr(ob, "meta", {}),
                "goal": ob.goal if isinstance(ob.goal, str) else str(ob.goal)[:400]}
     script = os.path.join(report.ROOT, "replay", "c14_bounded.py")
-    res, proc = report.native_json(script, {"tier": "quick", "seed": 0}, timeout=900)
+    if "res" not in _NATIVE:          # one native exploration per run, shared by every refuted obligation
+        _NATIVE["res"], _ = report.native_json(script, {"tier": "quick", "seed": 0}, timeout=1500)
+    res = _NATIVE["res"]
     fails = (res or {}).get("failures", [])
     payload["native"] = {"failures": fails[:3]}
     return bool(fails), payload
